@@ -63,10 +63,10 @@ func TestCheck(t *testing.T) {
 		// sub-workloads written directly on the public API (mini_test.go, midstream_test.go, wrap_test.go); their
 		// generators are derived from the case, not from rng: what the gspec workload below draws is unchanged
 		pub := rep.CaseRand(idx).Sub("public-api")
-		for k := 0; k < cfg.Pick(2, 3); k++ {
+		for k := 0; k < 2; k++ {
 			streamFaultCase(ctx, rep, pub.Sub(fmt.Sprint("stream-fault", k)), cfg)
 		}
-		for k := 0; k < cfg.Pick(3, 4); k++ {
+		for k := 0; k < 3; k++ {
 			wrapCase(ctx, rep, pub.Sub(fmt.Sprint("nested-run", k)), cfg)
 		}
 		if os.Getenv("C13_ONLY") != "" { // debugging aid: only the sub-workloads above
